@@ -71,6 +71,38 @@ func c01Corpus() []string {
 	return res
 }
 
+func c01Depths(tier string) []int {
+	d := []int{1, 2, 3, 4, 5, 6, 7, 8, 9, 10, 11, 12, 16, 24, 32, 48, 64, 128, 512}
+	if thorough(tier) {
+		d = append(d, 1000, 2000, 5000)
+	}
+	return d
+}
+
+// c01NestPatterns: {head, opener, core, closer, tail}; the source is head + opener^n + core + closer^n + tail.
+// Forms the library may reject are included on purpose: rejecting must not take longer than accepting.
+func c01NestPatterns() [][5]string {
+	pats := [][5]string{
+		{"{{ ", "(", "a", ")", " }}"}, {"{{ ", "[", "a", "]", " }}"}, {"{{ ", "{'k': ", "a", "}", " }}"}, {"{{ ", "f(", "a", ")", " }}"},
+		{"{{ ", "-", "a", "", " }}"}, {"{{ ", "not ", "a", "", " }}"}, {"{{ ", "+", "a", "", " }}"}, {"{{ ", "- -", "a", "", " }}"},
+		{"{{ a", ".b", "", "", " }}"}, {"{{ a", "|up", "", "", " }}"}, {"{{ a", "[0]", "", "", " }}"}, {"{{ a", ".m(1)", "", "", " }}"}, {"{{ a", "|wrap(a", "", ")", " }}"},
+		{"{{ ", "a ? ", "b", " : c", " }}"}, {"{{ ", "a ? b : ", "c", "", " }}"}, {"{{ ", "a ?: ", "b", "", " }}"}, {"{{ ", "a ?? ", "b", "", " }}"},
+		{"{{ ", "\"x#{", "a", "}y\"", " }}"}, {"{{ ", "'x' ~ ", "a", "", " }}"}, {"{{ ", "a is odd ? ", "b", " : c", " }}"},
+		{"", "{% if a %}x", "y", "{% endif %}", ""}, {"", "{% for v in arr %}", "{{ v }}", "{% endfor %}", ""}, {"", "{% filter up %}", "t", "{% endfilter %}", ""},
+		{"", "{% set c %}", "t", "{% endset %}", ""}, {"", "{% if a %}{% else %}", "y", "{% endif %}", ""}, {"", "{% if a %}{% elseif b %}", "y", "{% endif %}", ""},
+		{"", "{% verbatim %}", "t", "{% endverbatim %}", ""}, {"", "{# ", "c", " #}", ""}, {"", "{{ a }}", "", "", ""}, {"", "{% include 'inc' %}", "", "", ""},
+		{"", "{% embed 'base' %}{% block b %}", "t", "{% endblock %}{% endembed %}", ""}, {"", "{% macro m(x) %}", "t", "{% endmacro %}", ""},
+		{"{% set x = ", "[", "1", ", 2]", " %}"}, {"{% if ", "(", "a", " and b)", " %}y{% endif %}"}, {"{% for v in ", "[", "a", "]", " %}{% endfor %}"},
+	}
+	// every binary operator and the conditional forms, around a parenthesised left and right operand
+	ops := []string{"+", "-", "*", "/", "//", "%", "**", "~", "==", "!=", "<", ">", "<=", ">=", "and", "or", "in", "not in", "is", "matches", "starts with", "ends with", "..", "b-and", "b-or", "b-xor", "?:", "??", "<=>"}
+	for _, op := range ops {
+		pats = append(pats, [5]string{"{{ ", "(", "a", " " + op + " b)", " }}"}, [5]string{"{{ ", "(a " + op + " ", "b", ")", " }}"})
+	}
+	pats = append(pats, [5]string{"{{ ", "(", "a", " ? b : c)", " }}"}, [5]string{"{{ ", "(", "a", " ?: b) ?: b", " }}"}, [5]string{"{{ ", "(", "a", " is odd)", " }}"}, [5]string{"{{ ", "(", "a", "|up)", " }}"}, [5]string{"{{ ", "(", "a", ".b)", " }}"})
+	return pats
+}
+
 func c01Levels(tier string) []core.Level {
 	n1, n2 := 3, 5
 	if thorough(tier) {
@@ -107,6 +139,57 @@ func c01Levels(tier string) []core.Level {
 				pre, post := strings.Join(toks[:i], ""), strings.Join(toks[i:], "")
 				for _, f := range c01Frags {
 					emit(core.Case{Fam: "ins1", Src: pre + f + post})
+				}
+			}
+		}
+	}})
+	lv = append(lv, core.Level{Name: "deep nesting: every nestable construct (brackets, unary chains, each binary / conditional / Twig short-conditional operator around a parenthesised operand, attribute and filter chains, strings in interpolations, tags in tags) repeated n times, n in 1..12, 16, 24, 32, 48, 64, 128, 512", Gen: func(emit func(core.Case)) {
+		for _, n := range c01Depths(tier) {
+			for _, p := range c01NestPatterns() {
+				emit(core.Case{Fam: "deep", Src: p[0] + strings.Repeat(p[1], n) + p[2] + strings.Repeat(p[3], n) + p[4]})
+			}
+		}
+	}})
+	lv = append(lv, core.Level{Name: "trim markers: corpus templates with <= 8 delimiters x every subset of delimiters carrying a '-' marker x text between tags {as written, one blank, empty}", Gen: func(emit func(core.Case)) {
+		for _, src := range c01Corpus() {
+			toks := scanTokens(src)
+			var delims []int
+			for i, t := range toks {
+				if t == "{{" || t == "}}" || t == "{%" || t == "%}" {
+					delims = append(delims, i)
+				}
+			}
+			if len(delims) == 0 || len(delims) > 8 {
+				continue
+			}
+			for blank := 0; blank < 3; blank++ {
+				for m := 0; m < 1<<uint(len(delims)); m++ {
+					out := append([]string{}, toks...)
+					for j, di := range delims {
+						if m&(1<<uint(j)) != 0 {
+							if strings.HasPrefix(out[di], "{") {
+								out[di] += "-"
+							} else {
+								out[di] = "-" + out[di]
+							}
+						}
+					}
+					if blank > 0 {
+						depth := 0
+						for i, t := range toks {
+							switch t {
+							case "{{", "{%":
+								depth++
+							case "}}", "%}":
+								depth--
+							default:
+								if depth == 0 && !strings.HasPrefix(t, "{#") {
+									out[i] = []string{"", " ", ""}[blank]
+								}
+							}
+						}
+					}
+					emit(core.Case{Fam: "markers", Src: strings.Join(out, "")})
 				}
 			}
 		}
